@@ -10,7 +10,8 @@ claim("C13", "Coq theorem on the free-monad reader (run_truncated lifted to the 
 claim("C14", "Coq theorems on read_exact over event schedules (run_s / run_fault) + schedule and fault-injection correspondence run",
       "Theorems C14_schedule (any schedule of short reads and Interrupted results without a hard error gives the plain result, for every tree of "
       "read_exact requests, hence for the whole loader), C14_fault_offset and C14_fault_event (a hard error of kind k yields either the plain "
-      "result or Err(IoError k), exactly according to whether the consumed length was reached; never another sprite, never a panic) for all inputs "
+      "result or Err(IoError k), exactly according to whether the consumed length was reached; never another sprite, never a panic), with the corollaries "
+      "C14_schedules_agree, C14_sched_no_panic / C14_fault_no_panic (combined with the loader's no-panic theorem) and C14_sched_ok_same (a sprite obtained through any reader is the sprite of the plain load) for all inputs "
       "and schedules; the check re-proves them and drives the real library through instrumented readers (one byte at a time, random partitions, "
       "Interrupted before every read, BufReader/Cursor/chain/read_file, a hard error at every offset), comparing with the plain read and with the model.",
       "Modelled, not verified: std::io::Read::read_exact/read_to_end/Take as in Model/Sched.v; BufReader, File and byteorder are observed only.",
